@@ -11,6 +11,8 @@
 //!   tx      = id/in,in|-/out,out|-             (in = txid.index; 0.4294967295 = the null out-point)
 //!   config <keep_num> <prune_interval>                  -> ok        (first op of a case; opens the store)
 //!   append <number> <blockid> <tx> <tx> ..              -> tip n.h   (first tx is the cellbase)
+//!   wf <number> <blockid> <tx> <tx> ..                  -> wf a=0|1 f=0|1 k=0|1 d=0|1 r=0|1   (same arguments as `append`, state unchanged:
+//!                                                          the theorems' well-formedness hypotheses evaluated on the CURRENT store, see `Sim::wf_bits`)
 //!   rollback | prune | tip                              -> tip n.h | tip none
 //!   live lock|type <script>                             -> live op,op..          Indexer::get_live_cells_by_script
 //!   rawtxs lock|type <script>                           -> rawtxs id,id..        Indexer::get_transactions_by_script
@@ -27,6 +29,10 @@
 //! directly, and compares with what the implementation answered; after a rollback, the rows of the
 //! families OutPoint/Cell*Script/Tx*Script and the tip must equal the snapshot taken before the
 //! matching append.
+//! `wf`: the five hypothesis bits are computed from the real store's raw key dump (`Sim::wf_bits`); a/k/d false on a
+//! well-formed block is an oracle failure (`wf-hypothesis-false`, `wf-hypothesis-false-on-real-chain`), f/r are counted.
+//! Real-node stream (`realnode` argument, see `realnode_case`): additionally the indexer's OutPoint rows must equal the
+//! node's COLUMN_CELL (`indexer-live-neq-node-live`) and the tips must agree (`tip-neq-node-tip`) after every sync.
 use crate::common::*;
 use ckb_indexer::verif::VerifIndexer;
 use ckb_indexer::{IndexerHandle, KeyPrefix, Value};
@@ -88,23 +94,53 @@ impl ScriptSpec {
     }
     /// the harness's own rendering of `extract_raw_data` (code_hash ‖ hash_type ‖ args)
     fn raw(&self) -> Vec<u8> {
-        let mut v = vec![self.code as u8; 32];
-        v.push(if self.code % 2 == 1 { 1 } else { 0 });
+        let mut v = code_raw(self.code).to_vec();
         v.extend_from_slice(&self.args);
         v
     }
     fn build(&self) -> Script {
-        assert!(self.code < 256);
+        let r = code_raw(self.code);
         ScriptBuilder::default()
-            .code_hash(Byte32::new([self.code as u8; 32]))
-            .hash_type(if self.code % 2 == 1 { ScriptHashType::Type } else { ScriptHashType::Data })
+            .code_hash(Byte32::from_slice(&r[..32]).unwrap())
+            .hash_type(packed::Byte::new(r[32]))
             .args(ckb_types::bytes::Bytes::from(self.args.clone()))
             .build()
     }
     fn from_real(s: &Script) -> ScriptSpec {
-        let ch = s.code_hash();
-        ScriptSpec { code: ch.as_slice()[0] as u64, args: s.args().raw_data().to_vec() }
+        let mut raw = s.code_hash().as_slice().to_vec();
+        raw.extend_from_slice(s.hash_type().as_slice());
+        ScriptSpec { code: code_of_raw(&raw), args: s.args().raw_data().to_vec() }
     }
+}
+// The model orders keys by the script's code id, which stands for the 33 bytes code_hash ‖ hash_type.
+// Synthetic stream: identity mapping (code_hash = [code;32], hash_type = code % 2). Real-node stream: a per-case
+// table of the distinct 33-byte strings of the case, sorted bytewise; code id = 1 + position. The table belongs to
+// the current `Sim` case (`Sim::set_codes`, cleared by `Sim::reset`); the harness is single-threaded.
+thread_local! {
+    static CODE_TABLE: std::cell::RefCell<Option<Vec<[u8; 33]>>> = const { std::cell::RefCell::new(None) };
+}
+fn set_code_table(t: Option<Vec<[u8; 33]>>) {
+    CODE_TABLE.with(|c| *c.borrow_mut() = t);
+}
+fn code_raw(code: u64) -> [u8; 33] {
+    CODE_TABLE.with(|c| match c.borrow().as_ref() {
+        None => {
+            assert!(code < 256);
+            let mut r = [code as u8; 33];
+            r[32] = (code % 2) as u8;
+            r
+        }
+        Some(t) => {
+            assert!(code >= 1 && code as usize <= t.len(), "malformed: code id {} outside the case's table", code);
+            t[code as usize - 1]
+        }
+    })
+}
+fn code_of_raw(raw: &[u8]) -> u64 {
+    CODE_TABLE.with(|c| match c.borrow().as_ref() {
+        None => raw[0] as u64,
+        Some(t) => t.iter().position(|x| x[..] == raw[..33]).map(|i| i as u64 + 1).expect("script code_hash/hash_type not in the case's table"),
+    })
 }
 fn show_opt_script(s: &Option<ScriptSpec>) -> String {
     s.as_ref().map(|s| s.show()).unwrap_or_else(|| "-".into())
@@ -413,6 +449,17 @@ struct Sim {
     n_same_block_spend: u64,
     n_prune_effective: u64,
     n_queries_nonempty: u64,
+    /// oracle class of a false `a`/`k`/`d` bit of `wf` (the real-node stream uses its own class)
+    wf_class: &'static str,
+    /// the next `wf` op belongs to a block the generator made ill-formed on purpose: bits are only counted
+    wf_expect_illformed: bool,
+    /// length of the current run of consecutive rollbacks, and the longest run after an effective prune
+    rollback_run: u64,
+    n_deep_rollback_after_prune: u64,
+    n_edge_queries: u64,
+    // real-node stream: id assignment for real hashes
+    real_next_tx: u64,
+    real_next_block: u64,
 }
 
 fn pseudo_hash(tag: u8, id: u64) -> Byte32 {
@@ -443,6 +490,13 @@ impl Sim {
             n_same_block_spend: 0,
             n_prune_effective: 0,
             n_queries_nonempty: 0,
+            wf_class: "wf-hypothesis-false",
+            wf_expect_illformed: false,
+            rollback_run: 0,
+            n_deep_rollback_after_prune: 0,
+            n_edge_queries: 0,
+            real_next_tx: 1,
+            real_next_block: 1,
         }
     }
     fn close(&mut self) {
@@ -454,6 +508,7 @@ impl Sim {
     }
     fn reset(&mut self) {
         self.close();
+        set_code_table(None);
         let root = self.root.clone();
         let n = self.n_dirs;
         *self = Sim::new(root);
@@ -601,7 +656,7 @@ impl Sim {
     fn decode_script_key(&self, k: &[u8], tail: usize) -> (ScriptSpec, u64, u32, u32) {
         let n = k.len();
         let raw = &k[1..n - tail];
-        let s = ScriptSpec { code: raw[0] as u64, args: raw[33..].to_vec() };
+        let s = ScriptSpec { code: code_of_raw(raw), args: raw[33..].to_vec() };
         let t = &k[n - tail..];
         (s, u64::from_be_bytes(t[0..8].try_into().unwrap()), u32::from_be_bytes(t[8..12].try_into().unwrap()), u32::from_be_bytes(t[12..16].try_into().unwrap()))
     }
@@ -705,43 +760,18 @@ impl Sim {
                 out.op(line, "ok");
             }
             "append" => {
-                let spec = BlockSpec { number: t[1].parse().expect("number"), id: t[2].parse().expect("block id"), txs: t[3..].iter().map(|x| TxSpec::parse(x)).collect() };
+                let spec = parse_block_args(&t);
                 let expect_no = self.chain.last().map(|b| b.number + 1);
                 if let Some(n) = expect_no {
                     assert!(spec.number == n, "malformed: append must extend the tip by one");
                 }
                 let block = self.build_block(&spec);
-                if self.oracle_valid {
-                    let pre = self.answer_rows();
-                    let pre_tip = self.tip_string(out);
-                    self.snapshots.push((pre_tip, pre));
-                } else {
-                    self.snapshots.push((String::new(), vec![]));
-                }
-                // same-block spend statistics
-                let ids: BTreeSet<u64> = spec.txs.iter().map(|t| t.id).collect();
-                if spec.txs.iter().any(|t| t.inputs.iter().any(|(i, _)| ids.contains(i))) {
-                    self.n_same_block_spend += 1;
-                    out.count("append-with-same-block-spend");
-                }
-                let had_consumed = self.idx().dump().iter().filter(|(k, _)| k[0] == 32).count();
-                self.idx().append(&block).expect("append");
-                let has_consumed_old = self.idx().dump().iter().filter(|(k, _)| k[0] == 32 && u64::from_be_bytes(k[1..9].try_into().unwrap()) < spec.number).count();
-                if has_consumed_old < had_consumed {
-                    self.n_prune_effective += 1;
-                    out.count("append-pruned-rows");
-                }
-                self.chain.push(spec.clone());
-                self.note_prune_floor_after_append(&spec);
-                let ans = self.tip_string(out);
-                if self.oracle_valid {
-                    if let Some(c) = self.tip_class(&ans) {
-                        out.oracle_fail(c, &format!("{} vs {}", ans, self.oracle_tip()));
-                    }
-                }
-                out.count("append");
+                self.do_append(out, line, &spec, &block);
+            }
+            "wf" => {
+                let spec = parse_block_args(&t);
+                let ans = self.wf_answer(out, &spec);
                 out.op(line, &ans);
-                self.check_rows(out, "after-append");
             }
             "rollback" => {
                 let tip_before = self.chain.last().map(|b| b.number);
@@ -758,6 +788,16 @@ impl Sim {
                 if !within {
                     self.oracle_valid = false;
                     out.count("rollback-beyond-retention");
+                }
+                self.rollback_run += 1;
+                if within && self.floor.is_some() {
+                    if self.rollback_run >= 2 {
+                        out.count("rollback-run-ge2-after-prune");
+                        self.n_deep_rollback_after_prune += 1;
+                    }
+                    if self.chain.last().map(|b| b.number) == self.floor.map(|f| f + 1) {
+                        out.count("rollback-to-retention-floor");
+                    }
                 }
                 let ans = self.tip_string(out);
                 if self.chain.is_empty() && tip_before.is_some() {
@@ -1009,6 +1049,177 @@ impl Sim {
         }
     }
 
+    /// the shared part of `append`: `block` is what the indexer gets (built from `spec` in the synthetic stream and in
+    /// replays, the REAL block of the node in the real-node stream; `spec` is its translation)
+    fn do_append(&mut self, out: &mut Out, line: &str, spec: &BlockSpec, block: &BlockView) {
+        let expect_no = self.chain.last().map(|b| b.number + 1);
+        if let Some(n) = expect_no {
+            assert!(spec.number == n, "malformed: append must extend the tip by one");
+        }
+        if self.oracle_valid {
+            let pre = self.answer_rows();
+            let pre_tip = self.tip_string(out);
+            self.snapshots.push((pre_tip, pre));
+        } else {
+            self.snapshots.push((String::new(), vec![]));
+        }
+        // same-block spend statistics
+        let ids: BTreeSet<u64> = spec.txs.iter().map(|t| t.id).collect();
+        if spec.txs.iter().any(|t| t.inputs.iter().any(|(i, _)| ids.contains(i))) {
+            self.n_same_block_spend += 1;
+            out.count("append-with-same-block-spend");
+        }
+        let had_consumed = self.idx().dump().iter().filter(|(k, _)| k[0] == 32).count();
+        self.idx().append(block).expect("append");
+        let has_consumed_old = self.idx().dump().iter().filter(|(k, _)| k[0] == 32 && u64::from_be_bytes(k[1..9].try_into().unwrap()) < spec.number).count();
+        if has_consumed_old < had_consumed {
+            self.n_prune_effective += 1;
+            out.count("append-pruned-rows");
+        }
+        self.chain.push(spec.clone());
+        self.note_prune_floor_after_append(spec);
+        self.rollback_run = 0;
+        let ans = self.tip_string(out);
+        if self.oracle_valid {
+            if let Some(c) = self.tip_class(&ans) {
+                out.oracle_fail(c, &format!("{} vs {}", ans, self.oracle_tip()));
+            }
+        }
+        out.count("append");
+        out.op(line, &ans);
+        self.check_rows(out, "after-append");
+    }
+
+    /// The five `wf` bits, computed from the REAL store's key dump (raw rows, hashes mapped to ids by the harness's
+    /// own tables) and the block spec, independently of the model:
+    ///  a (`wfAppend2B`)   tx ids pairwise distinct; no live cell (OutPoint row) was created by a tx id of the block or at
+    ///                     the block's number; an input never refers to a tx of the block at the same or a later position
+    ///  f (`freshB`)       no Cell*Script / Tx*Script / ConsumedOutPoint row of the block's number, every Header row below
+    ///                     the block's number, no TxHash row of a tx id of the block
+    ///  k (`freshB2`)      as f, but a ConsumedOutPoint row of the block's number is allowed unless its out-point is an
+    ///                     input of a non-cellbase tx of the block that `append` cannot resolve
+    ///  d (`hdrDisjointB`) no Header row lists a tx id of the block
+    ///  r (`retentionB`)   no Header row, or block.number <= greatest Header number + keep_num
+    fn wf_bits(&self, spec: &BlockSpec) -> [bool; 5] {
+        let rows = self.idx().dump();
+        let ids: Vec<u64> = spec.txs.iter().map(|t| t.id).collect();
+        let id_of = |h: &[u8]| -> Option<u64> { self.tx_id.get(&Byte32::from_slice(h).expect("hash")).copied() };
+        let in_block = |h: &[u8]| -> bool { id_of(h).map(|i| ids.contains(&i)).unwrap_or(false) };
+        let be64 = |b: &[u8]| u64::from_be_bytes(b.try_into().unwrap());
+        // a
+        let mut a = (0..ids.len()).all(|i| !ids[..i].contains(&ids[i]));
+        for (k, v) in rows.iter().filter(|(k, _)| k[0] == 0) {
+            let created_at = u64::from_le_bytes(v[0..8].try_into().unwrap());
+            if in_block(&k[1..33]) || created_at == spec.number {
+                a = false;
+            }
+        }
+        for (i, tx) in spec.txs.iter().enumerate() {
+            for (t, _) in tx.inputs.iter() {
+                if spec.txs.iter().enumerate().any(|(j, o)| o.id == *t && j >= i) {
+                    a = false;
+                }
+            }
+        }
+        // the out-point (in id space) of a stored out-point, None = a transaction the harness never named
+        let op_ids = |b: &[u8]| -> Option<(u64, u32)> { id_of(&b[0..32]).map(|i| (i, u32::from_le_bytes(b[32..36].try_into().unwrap()))) };
+        let has_live_row = |b: &[u8]| -> bool {
+            let mut key = vec![0u8];
+            key.extend_from_slice(b);
+            rows.binary_search_by(|(k, _)| k.as_slice().cmp(key.as_slice())).is_ok()
+        };
+        let unresolved = |b: &[u8]| -> bool {
+            let op = match op_ids(b) {
+                Some(op) => op,
+                None => return false,
+            };
+            let is_input = spec.txs.iter().enumerate().any(|(i, tx)| i != 0 && tx.inputs.contains(&op));
+            let resolved = has_live_row(b) || spec.txs.iter().find(|tx| tx.id == op.0).map(|tx| (op.1 as usize) < tx.outputs.len()).unwrap_or(false);
+            is_input && !resolved
+        };
+        let (mut f, mut kk, mut d) = (true, true, true);
+        let mut tip: Option<u64> = None;
+        for (k, v) in rows.iter() {
+            match k[0] {
+                0 => {}
+                32 => {
+                    if be64(&k[1..9]) == spec.number {
+                        f = false;
+                        if unresolved(&k[9..45]) {
+                            kk = false;
+                        }
+                    }
+                }
+                64 | 96 => {
+                    let n = k.len();
+                    if be64(&k[n - 16..n - 8]) == spec.number {
+                        f = false;
+                        kk = false;
+                    }
+                }
+                128 | 160 => {
+                    let n = k.len();
+                    if be64(&k[n - 17..n - 9]) == spec.number {
+                        f = false;
+                        kk = false;
+                    }
+                }
+                192 => {
+                    if in_block(&k[1..33]) {
+                        f = false;
+                        kk = false;
+                    }
+                }
+                224 => {
+                    let n = be64(&k[1..9]);
+                    if n >= spec.number {
+                        f = false;
+                        kk = false;
+                    }
+                    tip = Some(tip.map(|t| t.max(n)).unwrap_or(n));
+                    if Value::parse_transactions_value(v, k.len() == 42).iter().any(|(h, _, _)| in_block(h.as_slice())) {
+                        d = false;
+                    }
+                }
+                _ => {}
+            }
+        }
+        let r = tip.map(|t| spec.number <= t + self.keep).unwrap_or(true);
+        [a, f, kk, d, r]
+    }
+    fn wf_answer(&mut self, out: &mut Out, spec: &BlockSpec) -> String {
+        let [a, f, k, d, r] = self.wf_bits(spec);
+        let bit = |x: bool| if x { 1 } else { 0 };
+        let ans = format!("wf a={} f={} k={} d={} r={}", bit(a), bit(f), bit(k), bit(d), bit(r));
+        out.count("wf-checked");
+        if a && f && k && d && r {
+            out.count("wf-all-true");
+        }
+        if !f {
+            out.count("wf-strong-fresh-false");
+        }
+        if !r {
+            out.count("wf-retention-false");
+        }
+        if !(a && k && d) {
+            if self.wf_expect_illformed {
+                out.count("wf-illformed-on-purpose");
+            } else if self.oracle_valid {
+                out.oracle_fail(self.wf_class, &format!("{} on block {} id {}", ans, spec.number, spec.id));
+            } else {
+                out.count("wf-hypothesis-false-beyond-retention");
+            }
+        }
+        self.wf_expect_illformed = false;
+        ans
+    }
+    /// `wf` line, then `append` line, of a synthetic block
+    fn wf_and_append(&mut self, out: &mut Out, b: &BlockSpec) {
+        let args = format!("{} {} {}", b.number, b.id, b.txs.iter().map(|t| t.show()).collect::<Vec<_>>().join(" "));
+        self.exec(out, &format!("wf {}", args));
+        self.exec(out, &format!("append {}", args));
+    }
+
     fn note_prune_floor_after_append(&mut self, spec: &BlockSpec) {
         // `append` prunes when number % interval == 0 (the harness knows the interval from `config`)
         if self.may_prune(spec.number) && spec.number > self.keep + 1 {
@@ -1021,6 +1232,9 @@ impl Sim {
     }
 }
 
+fn parse_block_args(t: &[&str]) -> BlockSpec {
+    BlockSpec { number: t[1].parse().expect("number"), id: t[2].parse().expect("block id"), txs: t[3..].iter().map(|x| TxSpec::parse(x)).collect() }
+}
 fn show_pages(p: &[Vec<String>]) -> String {
     p.iter().map(|x| if x.is_empty() { "-".to_string() } else { x.join(",") }).collect::<Vec<_>>().join("|")
 }
@@ -1032,6 +1246,14 @@ struct Gen {
     orphans: Vec<TxSpec>,
     scripts: Vec<ScriptSpec>,
     probe_known: bool,
+    /// greatest code id a query may name (synthetic: 4; real-node: size of the case's table)
+    max_code: u64,
+    /// live cells `gen_block` must not spend (kept for a later block far behind the prune horizon)
+    reserved: BTreeSet<(u64, u32)>,
+    /// inputs of the first non-cellbase transaction of the next block
+    force_inputs: Vec<(u64, u32)>,
+    /// re-include orphaned transactions with probability 3/4 instead of 1/3
+    prefer_orphans: bool,
 }
 
 fn script_pool(rng: &mut Rng, probe_known: bool) -> Vec<ScriptSpec> {
@@ -1054,6 +1276,9 @@ fn script_pool(rng: &mut Rng, probe_known: bool) -> Vec<ScriptSpec> {
 }
 
 impl Gen {
+    fn new(scripts: Vec<ScriptSpec>, probe_known: bool, max_code: u64) -> Gen {
+        Gen { next_tx: 1, next_block: 1, orphans: vec![], scripts, probe_known, max_code, reserved: BTreeSet::new(), force_inputs: vec![], prefer_orphans: false }
+    }
     fn rand_output(&self, rng: &mut Rng) -> OutSpec {
         let lock = rng.pick(&self.scripts).clone();
         let type_ = if rng.chance(1, 2) { Some(rng.pick(&self.scripts).clone()) } else { None };
@@ -1068,7 +1293,9 @@ impl Gen {
     fn gen_block(&mut self, rng: &mut Rng, sim: &Sim) -> BlockSpec {
         let number = sim.chain.last().map(|b| b.number + 1).unwrap_or(0);
         let st = replay_chain(&sim.chain);
-        let mut avail: Vec<(u64, u32)> = st.live.keys().cloned().collect();
+        let mut avail: Vec<(u64, u32)> = st.live.keys().filter(|k| !self.reserved.contains(k)).cloned().collect();
+        let forced: Vec<(u64, u32)> = std::mem::take(&mut self.force_inputs).into_iter().filter(|k| st.live.contains_key(k)).collect();
+        avail.retain(|a| !forced.contains(a));
         let on_chain: BTreeSet<u64> = sim.chain.iter().flat_map(|b| b.txs.iter().map(|t| t.id)).collect();
         let mut txs = vec![];
         // cellbase: sometimes without outputs (as in the first blocks of a real chain)
@@ -1079,10 +1306,19 @@ impl Gen {
             avail.push((cb.id, oi as u32));
         }
         txs.push(cb);
+        if !forced.is_empty() {
+            let n_out = rng.range(1, 3);
+            let tx = TxSpec { id: self.next_tx, inputs: forced, outputs: (0..n_out).map(|_| self.rand_output(rng)).collect() };
+            self.next_tx += 1;
+            for oi in 0..tx.outputs.len() {
+                avail.push((tx.id, oi as u32));
+            }
+            txs.push(tx);
+        }
         let n_tx = rng.below(5);
         for _ in 0..n_tx {
             // re-include a transaction of an abandoned branch when its inputs are all live
-            if !self.orphans.is_empty() && rng.chance(1, 3) {
+            if !self.orphans.is_empty() && (if self.prefer_orphans { rng.chance(3, 4) } else { rng.chance(1, 3) }) {
                 let k = rng.below(self.orphans.len() as u64) as usize;
                 let o = self.orphans[k].clone();
                 if !on_chain.contains(&o.id) && !txs.iter().any(|t: &TxSpec| t.id == o.id) && !o.inputs.is_empty() && o.inputs.iter().all(|i| avail.contains(i)) {
@@ -1133,7 +1369,7 @@ impl Gen {
                 s.args.push(0);
             }
             3 => {
-                s.code = rng.range(1, 4);
+                s.code = rng.range(1, self.max_code);
             }
             _ => {}
         }
@@ -1149,8 +1385,9 @@ impl Gen {
         if rng.chance(1, 4) {
             f.script = Some(self.rand_query_script(rng));
         }
-        // get_cells_capacity treats the END of script_len_range as inclusive (see report): only probed on request
-        if rng.chance(1, 5) && (!for_capacity || self.probe_known) {
+        // get_cells_capacity used to treat the END of script_len_range as inclusive (repaired in /repo 963ba99): always probed now
+        let _ = for_capacity;
+        if rng.chance(1, 5) {
             f.slr = self.rand_range(rng, &[0, 33, 34, 35, 36, 37]);
         }
         if rng.chance(1, 4) {
@@ -1173,6 +1410,138 @@ impl Gen {
             f.blk = self.rand_range(rng, &[0, 1, tip / 2, tip, tip + 1]);
         }
         f
+    }
+    // ------------------------------------------------------------ filters at their edges (derived from the live set)
+    /// a range around `x` (a value that occurs in a live cell): empty, unit, ending just below / at x, starting at x,
+    /// or spanning to another value that occurs
+    fn edge_range(&self, rng: &mut Rng, x: u64, others: &[u64]) -> (u64, u64) {
+        let y = if others.is_empty() { x } else { *rng.pick(others) };
+        match rng.below(9) {
+            0 => (x, x),
+            1 => (x, x + 1),
+            2 => (x.saturating_sub(1), x),
+            3 => (x.saturating_sub(1), x + 1),
+            4 => (0, x),
+            5 => (0, x + 1),
+            6 => (x, x.max(y) + 1 + rng.below(2) * 1000),
+            7 => (x.min(y), x.max(y)),
+            _ => (x.min(y), x.max(y) + 1),
+        }
+    }
+    fn edge_data(&self, rng: &mut Rng, d: &[u8]) -> (char, Vec<u8>) {
+        let m = *rng.pick(&['p', 'e', 'i']);
+        let n = d.len();
+        let pat: Vec<u8> = match rng.below(8) {
+            0 | 1 => d.to_vec(),
+            2 if n >= 1 => d[..n - 1].to_vec(),
+            3 if n >= 3 => d[1..n - 1].to_vec(),
+            3 if n >= 1 => d[1..].to_vec(),
+            4 if n >= 1 => d[1..].to_vec(),
+            5 => vec![],
+            6 => {
+                let mut v = d.to_vec();
+                v.push(*rng.pick(&[0u8, 1, 7, 255]));
+                v
+            }
+            _ if n >= 1 => {
+                let mut v = d.to_vec();
+                v[n - 1] = v[n - 1].wrapping_add(1);
+                v
+            }
+            _ => vec![7],
+        };
+        (m, pat)
+    }
+    fn edge_script(&self, rng: &mut Rng, s: &ScriptSpec, allow_zero: bool) -> ScriptSpec {
+        let mut q = s.clone();
+        match rng.below(4) {
+            0 if !q.args.is_empty() => {
+                q.args.truncate(rng.below(q.args.len() as u64) as usize);
+            }
+            1 => {
+                q.args.push(if allow_zero && rng.chance(1, 3) { 0 } else { *rng.pick(&[1u8, 2, 255]) });
+            }
+            _ => {}
+        }
+        q
+    }
+    /// (kind, op line): a query whose script and filters are taken from one live cell, every filter at an edge
+    fn edge_query(&self, rng: &mut Rng, sim: &Sim) -> Option<(&'static str, String)> {
+        let st = replay_chain(&sim.chain);
+        let cells: Vec<&OCell> = st.live.values().collect();
+        if cells.is_empty() {
+            return None;
+        }
+        let c = *rng.pick(&cells);
+        let by_lock = c.out.type_.is_none() || rng.chance(1, 2);
+        let s = if by_lock { &c.out.lock } else { c.out.type_.as_ref().unwrap() };
+        let sib: Option<&ScriptSpec> = if by_lock { c.out.type_.as_ref() } else { Some(&c.out.lock) };
+        // the searched script: exact, or a (proper) prefix of it in prefix mode, rarely a longer one
+        let (q, exact) = match rng.below(5) {
+            0 | 1 => (s.clone(), true),
+            2 => (s.clone(), false),
+            3 => {
+                let mut q = s.clone();
+                q.args.truncate(rng.below(q.args.len() as u64 + 1) as usize);
+                (q, false)
+            }
+            _ => (self.edge_script(rng, s, self.probe_known), rng.chance(1, 2)),
+        };
+        let kind = if by_lock { "lock" } else { "type" };
+        let mode = if exact { "exact" } else { "pre" };
+        let order = if rng.chance(1, 2) { "asc" } else { "desc" };
+        let limit = *rng.pick(&[1u32, 1, 2, 2, 3, 100]);
+        let caps: Vec<u64> = cells.iter().map(|c| c.out.cap).collect();
+        let dlens: Vec<u64> = cells.iter().map(|c| c.out.data.len() as u64).collect();
+        let bns: Vec<u64> = cells.iter().map(|c| c.bn).collect();
+        let slen = |o: Option<&ScriptSpec>| o.map(|s| s.raw().len() as u64).unwrap_or(0);
+        let slens: Vec<u64> = cells.iter().map(|c| if by_lock { slen(c.out.type_.as_ref()) } else { slen(Some(&c.out.lock)) }).collect();
+        let which = rng.below(20);
+        if which < 7 {
+            // get_transactions: filter script (EXACT sibling / shorter / longer) and block_range edges; small limits
+            let fs = if rng.chance(2, 3) { Some(match sib { Some(x) => self.edge_script(rng, x, false), None => rng.pick(&self.scripts).clone() }) } else { None };
+            let blk = if fs.is_none() || rng.chance(2, 3) { Some(self.edge_range(rng, c.bn, &bns)) } else { None };
+            let limit = *rng.pick(&[1u32, 2, 3]);
+            return Some(("filter-edge-txs", format!("txs {} {} {} {} {} {} {} {}", kind, q.show(), mode, order, limit, if rng.chance(1, 2) { "g" } else { "u" }, show_opt_script(&fs), show_range(&blk))));
+        }
+        let for_capacity = which >= 15;
+        let mut f = FilterSpec::default();
+        let n_filters = *rng.pick(&[1u64, 1, 2, 2, 3, 4]);
+        let mut kinds: Vec<u64> = vec![0, 1, 2, 3, 4, 5];
+        rng.shuffle(&mut kinds);
+        for k in kinds.into_iter().take(n_filters as usize) {
+            match k {
+                0 => f.script = Some(match sib { Some(x) => self.edge_script(rng, x, false), None => rng.pick(&self.scripts).clone() }),
+                // (get_cells_capacity used to treat the END as inclusive; repaired in /repo 963ba99, so `cap` probes it too)
+                1 => f.slr = Some(self.edge_range(rng, slen(sib), &slens)),
+                2 => f.data = Some(self.edge_data(rng, &c.out.data)),
+                3 => f.dlr = Some(self.edge_range(rng, c.out.data.len() as u64, &dlens)),
+                4 => f.cap = Some(self.edge_range(rng, c.out.cap, &caps)),
+                _ => f.blk = Some(self.edge_range(rng, c.bn, &bns)),
+            }
+        }
+        if for_capacity {
+            Some(("filter-edge-cap", format!("cap {} {} {} {}", kind, q.show(), mode, f.show())))
+        } else {
+            Some(("filter-edge-cells", format!("cells {} {} {} {} {} {}", kind, q.show(), mode, order, limit, f.show())))
+        }
+    }
+    /// a random query: one third of them at the edges of the live set
+    fn query_op(&self, out: &mut Out, rng: &mut Rng, sim: &mut Sim) {
+        if rng.chance(1, 3) {
+            if let Some((kind, line)) = self.edge_query(rng, sim) {
+                let before = sim.n_queries_nonempty;
+                sim.exec(out, &line);
+                out.count(kind);
+                sim.n_edge_queries += 1;
+                if sim.n_queries_nonempty > before {
+                    out.count("filter-edge-nonempty");
+                }
+                return;
+            }
+        }
+        let line = self.rand_query(rng, sim);
+        sim.exec(out, &line);
     }
     fn rand_query(&self, rng: &mut Rng, sim: &Sim) -> String {
         let kind = if rng.chance(3, 5) { "lock" } else { "type" };
@@ -1202,13 +1571,12 @@ fn gen_case(out: &mut Out, rng: &mut Rng, sim: &mut Sim, steps: usize, probe_kno
     let interval = *rng.pick(&[1u64, 1, 2, 3, 1000]);
     out.begin_case(&format!("keep={} interval={}", keep, interval));
     sim.exec(out, &format!("config {} {}", keep, interval));
-    let mut g = Gen { next_tx: 1, next_block: 1, orphans: vec![], scripts: script_pool(rng, probe_known), probe_known };
+    let mut g = Gen::new(script_pool(rng, probe_known), probe_known, 4);
     for _ in 0..steps {
         let r = rng.below(100);
         if r < 50 || sim.chain.is_empty() {
             let b = g.gen_block(rng, sim);
-            let line = format!("append {} {} {}", b.number, b.id, b.txs.iter().map(|t| t.show()).collect::<Vec<_>>().join(" "));
-            sim.exec(out, &line);
+            sim.wf_and_append(out, &b);
         } else if r < 68 {
             // reorg: roll back k blocks (inside the retention), the loop continues with other blocks
             let max_k = match sim.floor {
@@ -1236,14 +1604,663 @@ fn gen_case(out: &mut Out, rng: &mut Rng, sim: &mut Sim, steps: usize, probe_kno
         } else if r < 78 {
             sim.exec(out, "dump");
         } else {
-            let line = g.rand_query(rng, sim);
-            sim.exec(out, &line);
+            g.query_op(out, rng, sim);
         }
     }
     sim.exec(out, "dump");
     if sim.n_reorg > 0 && sim.n_same_block_spend > 0 && sim.n_queries_nonempty > 0 {
         out.nontrivial(format!("k{}i{}r{}s{}p{}b{}", keep, interval, sim.n_reorg.min(5), sim.n_same_block_spend.min(5), sim.n_prune_effective.min(3), sim.chain.len()));
     }
+}
+
+
+/// the deepest rollback the retention floor allows from the current tip
+fn max_rollback(sim: &Sim) -> u64 {
+    match sim.floor {
+        Some(f) => sim.chain.last().map(|b| b.number.saturating_sub(f + 1)).unwrap_or(0),
+        None => (sim.chain.len() as u64).saturating_sub(1),
+    }
+}
+fn rollback_n(out: &mut Out, sim: &mut Sim, g: &mut Gen, k: u64) {
+    if k > 0 {
+        sim.n_reorg += 1;
+    }
+    for _ in 0..k {
+        if let Some(b) = sim.chain.last() {
+            for t in b.txs.iter().skip(1) {
+                g.orphans.push(t.clone());
+            }
+        }
+        sim.exec(out, "rollback");
+    }
+}
+fn append_one(out: &mut Out, rng: &mut Rng, sim: &mut Sim, g: &mut Gen) {
+    let b = g.gen_block(rng, sim);
+    sim.wf_and_append(out, &b);
+}
+
+/// Task B scenarios (1) and (3): a prune has actually deleted rows; cells created far behind the prune horizon are spent;
+/// then the chain is rolled back EXACTLY to the retention floor (and, rarely, one block beyond it: outside the
+/// property, oracle switched off as for every rollback beyond the retention); `prune` right after the rollbacks; the
+/// orphaned transactions are appended again.
+fn gen_case_retention_floor(out: &mut Out, rng: &mut Rng, sim: &mut Sim, probe_known: bool) {
+    sim.reset();
+    let keep = *rng.pick(&[1u64, 1, 2, 3, 5]);
+    let interval = *rng.pick(&[1u64, 1, 2, 3, 1000]);
+    out.begin_case(&format!("retention-floor keep={} interval={}", keep, interval));
+    out.count("case-retention-floor");
+    sim.exec(out, &format!("config {} {}", keep, interval));
+    let mut g = Gen::new(script_pool(rng, probe_known), probe_known, 4);
+    // two blocks, then some of their cells are put aside
+    for _ in 0..2 {
+        append_one(out, rng, sim, &mut g);
+    }
+    let old: Vec<(u64, u32)> = replay_chain(&sim.chain).live.keys().cloned().take(3).collect();
+    g.reserved = old.iter().cloned().collect();
+    // until a prune has deleted ConsumedOutPoint rows and the tip is past the first effective prune
+    let extra = rng.below(3);
+    let mut guard = 0;
+    while (sim.n_prune_effective == 0 || (sim.chain.len() as u64) < keep + 3 + extra) && guard < 24 {
+        append_one(out, rng, sim, &mut g);
+        if interval == 1000 && sim.chain.len() as u64 > keep + 2 && rng.chance(1, 2) {
+            let before = sim.idx().dump().len();
+            sim.exec(out, "prune");
+            if sim.idx().dump().len() < before {
+                sim.n_prune_effective += 1;
+                out.count("explicit-prune-effective");
+            }
+        }
+        guard += 1;
+    }
+    // a block that spends the cells created many blocks before the prune horizon
+    if !old.is_empty() {
+        g.force_inputs = old.clone();
+        g.reserved.clear();
+        append_one(out, rng, sim, &mut g);
+        out.count("append-spends-cells-behind-prune-horizon");
+    }
+    for _ in 0..rng.below(interval.min(3)) {
+        append_one(out, rng, sim, &mut g);
+    }
+    sim.exec(out, "dump");
+    // exactly down to the floor
+    let k = max_rollback(sim);
+    rollback_n(out, sim, &mut g, k);
+    if k > 0 && sim.floor.is_some() {
+        out.count("rollback-exactly-to-floor-after-prune");
+        out.count(&format!("rollback-depth-{}", k.min(8)));
+    }
+    if rng.chance(1, 2) {
+        sim.exec(out, "prune");
+        out.count("prune-right-after-rollback");
+    }
+    sim.exec(out, "dump");
+    for _ in 0..3 {
+        g.query_op(out, rng, sim);
+    }
+    if rng.chance(1, 5) && sim.has_header_rows() && sim.chain.len() > 1 {
+        // one block beyond the floor: outside the property
+        rollback_n(out, sim, &mut g, 1);
+        sim.exec(out, "tip");
+        sim.exec(out, "dump");
+    }
+    // the orphaned transactions come back
+    g.prefer_orphans = true;
+    let n_orphans = g.orphans.len();
+    for _ in 0..(k + 1).min(6) {
+        append_one(out, rng, sim, &mut g);
+    }
+    if g.orphans.len() < n_orphans {
+        out.count("orphans-reappended-after-floor-rollback");
+    }
+    sim.exec(out, "dump");
+    for _ in 0..3 {
+        g.query_op(out, rng, sim);
+    }
+    if sim.oracle_valid && sim.n_prune_effective > 0 && k >= 1 {
+        out.nontrivial(format!("F:k{}i{}d{}p{}", keep, interval, k.min(8), sim.n_prune_effective.min(3)));
+    }
+}
+
+/// Task B scenario (2): the keep_num / prune_interval boundaries. `prune()` is effective iff tip > keep_num + 1: explicit
+/// `prune` ops at tip = keep_num .. keep_num + 3, intervals chosen so that keep_num + 2 is a multiple of the interval or
+/// one off, `prune` right after rollbacks.
+fn gen_case_prune_boundary(out: &mut Out, rng: &mut Rng, sim: &mut Sim, probe_known: bool) {
+    sim.reset();
+    let keep = *rng.pick(&[0u64, 1, 2, 3, 5]);
+    let interval = *rng.pick(&[1000u64, keep + 2, keep + 3, keep + 1, 1, 2, 3]);
+    out.begin_case(&format!("prune-boundary keep={} interval={}", keep, interval));
+    out.count("case-prune-boundary");
+    sim.exec(out, &format!("config {} {}", keep, interval));
+    let mut g = Gen::new(script_pool(rng, probe_known), probe_known, 4);
+    let last = keep + 3 + rng.below(3);
+    while (sim.chain.len() as u64) <= last {
+        append_one(out, rng, sim, &mut g);
+        let tip = sim.chain.last().unwrap().number;
+        if tip % interval == 0 {
+            out.count(if tip > keep + 1 { "append-at-interval-multiple-above-threshold" } else { "append-at-interval-multiple-below-threshold" });
+        }
+        if tip >= keep && tip <= keep + 3 && (tip == keep + 1 || tip == keep + 2 || rng.chance(1, 2)) {
+            let before = sim.idx().dump().len();
+            sim.exec(out, "prune");
+            out.count(&format!("prune-at-tip-keep+{}", tip - keep));
+            if sim.idx().dump().len() < before {
+                sim.n_prune_effective += 1;
+                out.count("explicit-prune-effective");
+            }
+            sim.exec(out, "dump");
+        }
+    }
+    let k = max_rollback(sim).min(1 + rng.below(4));
+    rollback_n(out, sim, &mut g, k);
+    if k > 0 {
+        sim.exec(out, "prune");
+        out.count("prune-right-after-rollback");
+        sim.exec(out, "dump");
+    }
+    g.prefer_orphans = true;
+    for _ in 0..k + 1 {
+        append_one(out, rng, sim, &mut g);
+    }
+    sim.exec(out, "prune");
+    sim.exec(out, "dump");
+    for _ in 0..3 {
+        g.query_op(out, rng, sim);
+    }
+    if sim.oracle_valid && sim.n_prune_effective > 0 {
+        out.nontrivial(format!("B:k{}i{}r{}p{}", keep, interval, k, sim.n_prune_effective.min(3)));
+    }
+}
+
+// ---------------------------------------------------------------- real-node stream
+// A real, fully verifying node (node.rs) is fed a TREE of valid blocks built by ChainBuilder; after each delivered block a
+// harness-side copy of `IndexerSyncService::try_loop_sync` (util/indexer-sync/src/lib.rs) moves the real `VerifIndexer`
+// along the NODE's main chain (blocks read from the node's store). Every append/rollback is written in the text
+// protocol (real hashes -> small ids, (code_hash, hash_type) -> code ids in byte order), so the model, the replay oracle
+// and the `wf` hypotheses are evaluated on real block shapes; the node's own live-cell set is a second, independent oracle.
+use crate::node::{always_success_dep, genesis_cells, make_consensus, ChainBuilder, Node, NodeCfg};
+use ckb_store::ChainStore;
+use std::collections::HashSet;
+
+#[derive(Clone)]
+struct RCell {
+    op: OutPoint,
+    cap: u64,
+    spendable: bool,
+}
+/// what the planner knows after a block: live cells of that branch, proposed-but-uncommitted transactions
+#[derive(Clone)]
+struct RState {
+    height: u64,
+    live: Vec<RCell>,
+    pending: Vec<(u64, TransactionView)>,
+    committed: HashSet<Byte32>,
+}
+struct RealScripts {
+    as_hash: Byte32,
+    junk_hash: Byte32,
+    data1: bool,
+    args: Vec<Vec<u8>>,
+}
+impl RealScripts {
+    fn mk(code_hash: &Byte32, hash_type: u8, args: &[u8]) -> Script {
+        ScriptBuilder::default().code_hash(code_hash.clone()).hash_type(packed::Byte::new(hash_type)).args(ckb_types::bytes::Bytes::from(args.to_vec())).build()
+    }
+    /// always-success by data hash (VM0 / VM1): can be unlocked and can be used as a type script
+    fn runnable(&self, rng: &mut Rng) -> Script {
+        let ht = if self.data1 && rng.chance(1, 3) { 2 } else { 0 };
+        let args = if rng.chance(1, 3) { vec![] } else { rng.pick(&self.args).clone() };
+        Self::mk(&self.as_hash, ht, &args)
+    }
+    /// locks nobody can unlock (outputs only): same code hash with hash_type Type, or an unknown code hash
+    fn unspendable(&self, rng: &mut Rng) -> Script {
+        let args = rng.pick(&self.args).clone();
+        match rng.below(3) {
+            0 => Self::mk(&self.as_hash, 1, &args),
+            1 => Self::mk(&self.junk_hash, 0, &args),
+            _ => Self::mk(&self.junk_hash, 1, &args),
+        }
+    }
+}
+const REAL_DATA: [&[u8]; 5] = [&[], &[7], &[7, 8], &[9, 7, 8, 1], &[7, 8, 0]];
+
+/// an always-success transaction over `inputs`: 1..3 outputs with different locks (args, hash types), optional type
+/// scripts, different data and capacities (several exactly at the occupied capacity, so equal capacities occur)
+fn real_tx(rng: &mut Rng, inputs: &[RCell], sc: &RealScripts) -> Option<TransactionView> {
+    let total: u64 = inputs.iter().map(|c| c.cap).sum();
+    let fee = 1000 + rng.below(5000);
+    for attempt in 0..3 {
+        let n_out = if attempt == 0 { rng.range(1, 3) as usize } else { 1 };
+        let mut outs = vec![];
+        for i in 0..n_out {
+            let last = i + 1 == n_out;
+            let plain = attempt == 2;
+            let lock = if plain { RealScripts::mk(&sc.as_hash, 0, &[]) } else if last || rng.chance(3, 4) { sc.runnable(rng) } else { sc.unspendable(rng) };
+            let ty = if !plain && rng.chance(1, 3) { Some(sc.runnable(rng)) } else { None };
+            let data: Vec<u8> = if plain { vec![] } else { rng.pick(&REAL_DATA).to_vec() };
+            let o = CellOutputBuilder::default().lock(lock).type_(ty).build();
+            let occ = o.occupied_capacity(Capacity::bytes(data.len()).unwrap()).unwrap().as_u64();
+            outs.push((o, data, occ));
+        }
+        let need: u64 = outs.iter().map(|o| o.2).sum();
+        if total < fee + need {
+            continue;
+        }
+        let mut rem = total - fee - need;
+        let even = rng.chance(1, 2);
+        let mut b = TransactionBuilder::default().cell_dep(always_success_dep());
+        for c in inputs {
+            b = b.input(CellInput::new(c.op.clone(), 0));
+        }
+        for (i, (o, data, occ)) in outs.iter().enumerate() {
+            let last = i + 1 == n_out;
+            let extra = if last { rem } else if even { rem / n_out as u64 } else { (*rng.pick(&[0u64, 0, 1, 100, 100_000_000])).min(rem) };
+            rem -= extra;
+            b = b.output(o.clone().as_builder().capacity(Capacity::shannons(occ + extra)).build()).output_data(ckb_types::bytes::Bytes::from(data.clone()));
+        }
+        return Some(b.build());
+    }
+    None
+}
+fn is_runnable_lock(sc: &RealScripts, s: &Script) -> bool {
+    let ht: u8 = s.hash_type().into();
+    s.code_hash() == sc.as_hash && (ht == 0 || ht == 2)
+}
+
+struct Planner {
+    builder: ChainBuilder,
+    states: HashMap<Byte32, RState>,
+    sc: RealScripts,
+    close: u64,
+    far: u64,
+    salt: u64,
+    /// delivery order; the flag says whether the indexer is synchronised right after the block
+    deliveries: Vec<(BlockView, bool)>,
+}
+impl Planner {
+    fn height(&self, h: &Byte32) -> u64 {
+        self.states[h].height
+    }
+    fn ancestor(&self, h: &Byte32, d: u64) -> Byte32 {
+        let mut x = h.clone();
+        for _ in 0..d {
+            x = self.builder.block(&x).parent_hash();
+        }
+        x
+    }
+    fn lca_height(&self, a: &Byte32, b: &Byte32) -> u64 {
+        let (pa, pb) = (self.builder.path_to(a), self.builder.path_to(b));
+        pa.iter().zip(pb.iter()).take_while(|(x, y)| x == y).count() as u64 - 1
+    }
+    /// one valid block on `parent`: commits proposed transactions whose window is open and whose inputs are live on
+    /// this branch (parents before children: chains of transactions spending each other in the same block), proposes
+    /// new ones for the next blocks
+    fn build_on(&mut self, rng: &mut Rng, parent: &Byte32, sync_after: bool) -> Byte32 {
+        let st = self.states[parent].clone();
+        let n = st.height + 1;
+        let mut live = st.live.clone();
+        let mut commit: Vec<TransactionView> = vec![];
+        let mut committed = st.committed.clone();
+        let mut pending = vec![];
+        for (p, tx) in st.pending.iter() {
+            if committed.contains(&tx.hash()) || p + self.far < n {
+                continue;
+            }
+            let open = p + self.close <= n;
+            let ins: Vec<OutPoint> = tx.input_pts_iter().collect();
+            if open && rng.chance(4, 5) && ins.iter().all(|op| live.iter().any(|c| &c.op == op && c.spendable)) {
+                live.retain(|c| !ins.contains(&c.op));
+                for (i, o) in tx.outputs().into_iter().enumerate() {
+                    let cap: u64 = o.capacity().into();
+                    live.push(RCell { op: OutPoint::new(tx.hash(), i as u32), cap, spendable: is_runnable_lock(&self.sc, &o.lock()) });
+                }
+                committed.insert(tx.hash());
+                commit.push(tx.clone());
+            } else {
+                pending.push((*p, tx.clone()));
+            }
+        }
+        // new transactions, proposed in this block: over the live cells and the outputs of pending transactions
+        let mut virt: Vec<RCell> = live.iter().filter(|c| c.spendable && !pending.iter().any(|(_, t)| t.input_pts_iter().any(|op| op == c.op))).cloned().collect();
+        for (_, t) in pending.iter() {
+            for (i, o) in t.outputs().into_iter().enumerate() {
+                let op = OutPoint::new(t.hash(), i as u32);
+                if is_runnable_lock(&self.sc, &o.lock()) && !pending.iter().any(|(_, t2)| t2.input_pts_iter().any(|x| x == op)) {
+                    virt.push(RCell { op, cap: o.capacity().into(), spendable: true });
+                }
+            }
+        }
+        let mut proposals = vec![];
+        let n_new = *rng.pick(&[0u64, 1, 2, 2, 3, 4]);
+        for _ in 0..n_new {
+            if virt.is_empty() {
+                break;
+            }
+            // rarely a double spend of a cell a pending transaction already spends (only one of them can be committed)
+            let n_in = rng.range(1, 3.min(virt.len() as u64));
+            let mut ins = vec![];
+            for _ in 0..n_in {
+                let k = if rng.chance(2, 3) { virt.len() - 1 - rng.below(virt.len().min(3) as u64) as usize } else { rng.below(virt.len() as u64) as usize };
+                ins.push(virt.remove(k));
+            }
+            if let Some(tx) = real_tx(rng, &ins, &self.sc) {
+                for (i, o) in tx.outputs().into_iter().enumerate() {
+                    if is_runnable_lock(&self.sc, &o.lock()) {
+                        virt.push(RCell { op: OutPoint::new(tx.hash(), i as u32), cap: o.capacity().into(), spendable: true });
+                    }
+                }
+                proposals.push(tx.proposal_short_id());
+                pending.push((n, tx));
+            }
+        }
+        self.salt += 1;
+        let spec = crate::node::BlockSpec { txs: commit, proposals, salt: self.salt, ..Default::default() };
+        let block = self.builder.build(parent, &spec);
+        assert_eq!(block.number(), n);
+        let cb = &block.transactions()[0];
+        for (i, o) in cb.outputs().into_iter().enumerate() {
+            live.push(RCell { op: OutPoint::new(cb.hash(), i as u32), cap: o.capacity().into(), spendable: is_runnable_lock(&self.sc, &o.lock()) });
+        }
+        let h = block.hash();
+        self.states.insert(h.clone(), RState { height: n, live, pending, committed });
+        self.deliveries.push((block, sync_after));
+        h
+    }
+}
+
+impl Sim {
+    fn set_codes(&mut self, t: Vec<[u8; 33]>) {
+        set_code_table(Some(t));
+    }
+    fn real_tx_id(&mut self, h: &Byte32) -> u64 {
+        if let Some(i) = self.tx_id.get(h) {
+            return *i;
+        }
+        let id = self.real_next_tx;
+        self.real_next_tx += 1;
+        self.tx_id.insert(h.clone(), id);
+        self.tx_hash.insert(id, h.clone());
+        id
+    }
+    /// the text-protocol form of a real block
+    fn translate_block(&mut self, b: &BlockView) -> BlockSpec {
+        let id = match self.block_id.get(&b.hash()) {
+            Some(i) => *i,
+            None => {
+                let i = self.real_next_block;
+                self.real_next_block += 1;
+                self.block_id.insert(b.hash(), i);
+                i
+            }
+        };
+        let mut txs = vec![];
+        for tx in b.transactions().iter() {
+            let tid = self.real_tx_id(&tx.hash());
+            let inputs: Vec<(u64, u32)> = tx
+                .input_pts_iter()
+                .map(|op| if op.is_null() { (NULL_TX, NULL_IDX) } else { (*self.tx_id.get(&op.tx_hash()).expect("input of a transaction the harness never saw"), op.index().into()) })
+                .collect();
+            let outputs: Vec<OutSpec> = tx
+                .outputs_with_data_iter()
+                .map(|(o, d)| OutSpec { lock: ScriptSpec::from_real(&o.lock()), type_: o.type_().to_opt().map(|t| ScriptSpec::from_real(&t)), cap: o.capacity().into(), data: d.to_vec() })
+                .collect();
+            txs.push(TxSpec { id: tid, inputs, outputs });
+        }
+        BlockSpec { number: b.number(), id, txs }
+    }
+    /// `wf` + `append` of a REAL block (the indexer gets the node's BlockView, the model its translation)
+    fn real_append(&mut self, out: &mut Out, block: &BlockView) {
+        let spec = self.translate_block(block);
+        let args = format!("{} {} {}", spec.number, spec.id, spec.txs.iter().map(|t| t.show()).collect::<Vec<_>>().join(" "));
+        let ans = self.wf_answer(out, &spec);
+        out.op(&format!("wf {}", args), &ans);
+        self.do_append(out, &format!("append {}", args), &spec, block);
+    }
+    /// harness-side copy of `IndexerSyncService::try_loop_sync` over the node's store; returns (appends, rollbacks)
+    fn sync_with_node(&mut self, out: &mut Out, node: &Node) -> (u64, u64) {
+        let (mut n_app, mut n_rb) = (0, 0);
+        loop {
+            match self.idx().tip().expect("tip") {
+                Some((tip_number, tip_hash)) => {
+                    let block = match node.store().get_block_hash(tip_number + 1).and_then(|h| node.store().get_block(&h)) {
+                        Some(b) => b,
+                        None => break,
+                    };
+                    if block.parent_hash() == tip_hash {
+                        self.real_append(out, &block);
+                        n_app += 1;
+                    } else {
+                        self.exec(out, "rollback");
+                        assert!(self.oracle_valid, "real-node generator bug: reorg deeper than the retention");
+                        n_rb += 1;
+                    }
+                }
+                None => {
+                    let block = node.store().get_block_hash(0).and_then(|h| node.store().get_block(&h)).expect("genesis");
+                    self.real_append(out, &block);
+                    n_app += 1;
+                }
+            }
+        }
+        (n_app, n_rb)
+    }
+    /// node-level oracle: the indexer's OutPoint rows are exactly the node's live cells, the tips agree
+    fn node_oracle(&mut self, out: &mut Out, node: &Node) {
+        let nt = node.tip();
+        let it = self.idx().tip().expect("tip");
+        if it != Some((nt.number(), nt.hash())) {
+            out.oracle_fail("tip-neq-node-tip", &format!("indexer {:?} node {}.{}", it.map(|(n, h)| (n, self.block_id.get(&h).copied())), nt.number(), self.block_id.get(&nt.hash()).copied().unwrap_or(0)));
+            return;
+        }
+        let mut n_rows = 0usize;
+        for (k, v) in self.idx().dump().iter().filter(|(k, _)| k[0] == 0) {
+            n_rows += 1;
+            let op = OutPoint::from_slice(&k[1..]).expect("out point");
+            let (bn, txi, output, data) = Value::parse_cell_value(v);
+            match node.store().get_cell(&op) {
+                None => out.oracle_fail("indexer-live-neq-node-live", &format!("indexed live cell {} is not live in the node", self.decode_op(op.as_slice()))),
+                Some(meta) => {
+                    let info = meta.transaction_info.clone().expect("transaction info");
+                    let nd = node.store().get_cell_data(&op).map(|x| x.0).unwrap_or_default();
+                    if meta.cell_output.as_slice() != output.as_slice() || info.block_number != bn || info.index as u32 != txi || nd[..] != data.raw_data()[..] {
+                        out.oracle_fail("indexer-live-neq-node-live", &format!("cell {} differs: indexer {}.{} node {}.{}", self.decode_op(op.as_slice()), bn, txi, info.block_number, info.index));
+                    }
+                }
+            }
+        }
+        let n_node = node.store().get_iter(ckb_db_schema::COLUMN_CELL, ckb_db::IteratorMode::Start).count();
+        if n_node != n_rows {
+            out.oracle_fail("indexer-live-neq-node-live", &format!("{} OutPoint rows, {} live cells in the node's COLUMN_CELL", n_rows, n_node));
+        }
+        out.count("node-oracle-checked");
+    }
+}
+
+const REAL_KEEPS: [u64; 5] = [1, 2, 3, 5, 100];
+const REAL_INTERVALS: [u64; 4] = [1, 2, 3, 1000];
+
+fn realnode_case(out: &mut Out, rng: &mut Rng, sim: &mut Sim, case_idx: u64, n_blocks: u64, probe_known: bool) {
+    sim.reset();
+    let combo = case_idx % 20;
+    let keep = REAL_KEEPS[(combo % 5) as usize];
+    let interval = REAL_INTERVALS[(combo / 5) as usize];
+    let window = *rng.pick(&[(1u64, 2u64), (1, 3), (2, 4)]);
+    let cfg = NodeCfg { epoch_len: *rng.pick(&[4u64, 7, 10]), window, genesis_cells: rng.range(4, 10), maturity_epochs: 0, with_pool: false, tx_pool: None };
+    let consensus = make_consensus(&cfg);
+    let base = sim.root.join(format!("rn{}", case_idx));
+    let _ = std::fs::remove_dir_all(&base);
+    std::fs::create_dir_all(&base).expect("mkdir");
+    let (_, _, as_script) = ckb_test_chain_utils::always_success_cell();
+    let mut args: Vec<Vec<u8>> = vec![vec![1], vec![1, 2], vec![1, 2, 3], vec![1, 255], vec![2], vec![255]];
+    if probe_known {
+        args.push(vec![1, 0]);
+        args.push(vec![0]);
+    }
+    let data1 = consensus.hardfork_switch().ckb2021.is_vm_version_1_and_syscalls_2_enabled(0);
+    let sc = RealScripts { as_hash: as_script.code_hash(), junk_hash: Byte32::new([0x5a; 32]), data1, args };
+    let g0 = consensus.genesis_hash();
+    let mut pl = Planner { builder: ChainBuilder::new(consensus.clone(), &base.join("builder")), states: HashMap::new(), sc, close: window.0, far: window.1, salt: case_idx * 1000, deliveries: vec![] };
+    pl.builder.max_branch_stores = 8;
+    let g_live: Vec<RCell> = genesis_cells(&consensus).into_iter().map(|(op, cap)| RCell { op, cap, spendable: true }).collect();
+    pl.states.insert(g0.clone(), RState { height: 0, live: g_live, pending: vec![], committed: HashSet::new() });
+
+    // ---- phase 1: the whole tree, in delivery order
+    let mut best = g0.clone();
+    let mut losers: Vec<Byte32> = vec![];
+    let mut depths: Vec<u64> = vec![];
+    while (pl.deliveries.len() as u64) < n_blocks {
+        let r = rng.below(100);
+        let hb = pl.height(&best);
+        let sync = !rng.chance(1, 7);
+        if r < 55 || hb < 2 {
+            best = pl.build_on(rng, &best, sync);
+        } else if r < 85 {
+            // a fork of depth d that becomes longer: the node reorganises at its last block
+            let d = rng.range(1, 4.min(keep).min(hb));
+            let mut p = pl.ancestor(&best, d);
+            for i in 0..=d {
+                p = pl.build_on(rng, &p, if i == d { true } else { sync });
+            }
+            losers.push(best.clone());
+            best = p;
+            depths.push(d);
+        } else if r < 93 {
+            // a fork that stays shorter or equal: the node keeps its chain (the indexer must not move)
+            let d = rng.range(1, 4.min(keep).min(hb));
+            let len = rng.range(1, d);
+            let mut p = pl.ancestor(&best, d);
+            for _ in 0..len {
+                p = pl.build_on(rng, &p, sync);
+            }
+            losers.push(p);
+            out.count("real-fork-not-adopted");
+        } else if !losers.is_empty() {
+            // an abandoned branch grows again; if it overtakes, the reorg depth must stay inside the retention
+            let k = rng.below(losers.len() as u64) as usize;
+            let x = losers[k].clone();
+            let depth = hb - pl.lca_height(&best, &x);
+            if depth <= keep.min(4) && pl.height(&x) + 3 > hb {
+                let mut p = x;
+                let mut switched = false;
+                for _ in 0..3 {
+                    p = pl.build_on(rng, &p, true);
+                    if pl.height(&p) > hb {
+                        switched = true;
+                        break;
+                    }
+                }
+                if switched {
+                    losers[k] = best.clone();
+                    best = p;
+                    depths.push(depth);
+                    out.count("real-abandoned-branch-overtakes");
+                } else {
+                    losers[k] = p;
+                }
+            }
+        }
+    }
+    if let Some(l) = pl.deliveries.last_mut() {
+        l.1 = true;
+    }
+    // ---- the code table of the case: every (code_hash, hash_type) of every block built, plus two that never occur
+    let mut codes: BTreeSet<[u8; 33]> = BTreeSet::new();
+    let mut add = |s: &Script| {
+        let mut r = [0u8; 33];
+        r[..32].copy_from_slice(s.code_hash().as_slice());
+        r[32] = s.hash_type().into();
+        codes.insert(r);
+    };
+    let genesis = consensus.genesis_block().clone();
+    for b in std::iter::once(&genesis).chain(pl.deliveries.iter().map(|d| &d.0)) {
+        for tx in b.transactions().iter() {
+            for o in tx.outputs().into_iter() {
+                add(&o.lock());
+                if let Some(t) = o.type_().to_opt() {
+                    add(&t);
+                }
+            }
+        }
+    }
+    let mut absent = [0xffu8; 33];
+    absent[32] = 1;
+    codes.insert(absent);
+    let mut absent2 = [0u8; 33];
+    absent2[..32].copy_from_slice(pl.sc.as_hash.as_slice());
+    absent2[32] = 4;
+    codes.insert(absent2);
+    let table: Vec<[u8; 33]> = codes.into_iter().collect();
+    let n_codes = table.len() as u64;
+
+    // ---- phase 2: the node, the indexer, the protocol
+    out.begin_case(&format!("realnode keep={} interval={} window={}.{} epoch={} blocks={}", keep, interval, window.0, window.1, cfg.epoch_len, pl.deliveries.len()));
+    sim.set_codes(table);
+    sim.wf_class = "wf-hypothesis-false-on-real-chain";
+    sim.exec(out, &format!("config {} {}", keep, interval));
+    let node = Node::start(&base.join("node"), consensus.clone(), &cfg);
+    // scripts for the queries: every script of the tree
+    let mut scripts: BTreeSet<ScriptSpec> = BTreeSet::new();
+    for b in std::iter::once(&genesis).chain(pl.deliveries.iter().map(|d| &d.0)) {
+        for tx in b.transactions().iter() {
+            for o in tx.outputs().into_iter() {
+                scripts.insert(ScriptSpec::from_real(&o.lock()));
+                if let Some(t) = o.type_().to_opt() {
+                    scripts.insert(ScriptSpec::from_real(&t));
+                }
+            }
+        }
+    }
+    let g = Gen::new(scripts.into_iter().collect(), probe_known, n_codes);
+    let (mut n_rb_total, mut max_run) = (0u64, 0u64);
+    sim.sync_with_node(out, &node);
+    sim.node_oracle(out, &node);
+    let deliveries = std::mem::take(&mut pl.deliveries);
+    for (i, (block, sync)) in deliveries.iter().enumerate() {
+        let r = node.process(block);
+        assert_eq!(r, Ok(true), "real-node generator bug: the node rejected block {} (case {})", block.number(), case_idx);
+        out.count("real-block-processed");
+        if !*sync {
+            out.count("real-sync-skipped");
+            continue;
+        }
+        let (na, nr) = sim.sync_with_node(out, &node);
+        if nr > 0 {
+            sim.n_reorg += 1;
+            n_rb_total += nr;
+            max_run = max_run.max(nr);
+            out.count(&format!("real-reorg-depth-{}", nr));
+        }
+        if na > 1 {
+            out.count("real-sync-multi-append");
+        }
+        sim.node_oracle(out, &node);
+        for _ in 0..rng.range(1, 3) {
+            g.query_op(out, rng, sim);
+        }
+        if i % 6 == 5 {
+            sim.exec(out, "dump");
+        }
+    }
+    sim.exec(out, "tip");
+    sim.exec(out, "dump");
+    // a sweep: every script of the chain in both families, full walks
+    let all: Vec<ScriptSpec> = g.scripts.clone();
+    for s in all.iter().take(12) {
+        let kind = if rng.chance(1, 2) { "lock" } else { "type" };
+        sim.exec(out, &format!("cells {} {} exact {} 2 - - - - - -", kind, s.show(), if rng.chance(1, 2) { "asc" } else { "desc" }));
+        sim.exec(out, &format!("txs {} {} pre {} 3 {} - -", kind, s.show(), if rng.chance(1, 2) { "asc" } else { "desc" }, if rng.chance(1, 2) { "g" } else { "u" }));
+    }
+    out.count("real-case");
+    out.count(&format!("real-keep-{}", keep));
+    out.count(&format!("real-interval-{}", interval));
+    if sim.n_reorg > 0 && sim.n_same_block_spend > 0 && sim.n_queries_nonempty > 0 {
+        out.nontrivial(format!("R:k{}i{}w{}.{}r{}d{}s{}p{}", keep, interval, window.0, window.1, sim.n_reorg.min(5), max_run, sim.n_same_block_spend.min(5), sim.n_prune_effective.min(3)));
+    }
+    let _ = (n_rb_total, depths);
+    node.stop();
+    drop(pl);
+    sim.close();
+    let _ = std::fs::remove_dir_all(&base);
 }
 
 pub fn run(opts: &Opts) {
@@ -1271,13 +2288,26 @@ pub fn run(opts: &Opts) {
                 sim.exec(&mut out, &line);
             }
         }
+    } else if opts.extra.iter().any(|s| s == "realnode") {
+        let (cases, blocks) = if opts.thorough() { (250 * opts.scale, 34) } else { (30 * opts.scale, 24) };
+        for i in 0..cases {
+            realnode_case(&mut out, &mut rng, &mut sim, opts.seed.wrapping_add(i), blocks + (i % 3) * 4, probe_known);
+        }
     } else {
         let (cases, steps) = if opts.thorough() { (2500 * opts.scale, 60) } else { (600 * opts.scale, 45) };
-        for _ in 0..cases {
+        for i in 0..cases {
             gen_case(&mut out, &mut rng, &mut sim, steps as usize, probe_known);
+            // every fifth case is followed by one of the two boundary scenarios
+            if i % 5 == 0 {
+                if i % 10 == 0 {
+                    gen_case_retention_floor(&mut out, &mut rng, &mut sim, probe_known);
+                } else {
+                    gen_case_prune_boundary(&mut out, &mut rng, &mut sim, probe_known);
+                }
+            }
         }
     }
     sim.close();
     let _ = std::fs::remove_dir_all(&root);
-    out.finish("a case is non-trivial when it contains at least one reorg (rollback of >=1 block followed by other blocks), at least one block in which a cell is created and spent, and at least one query with a non-empty answer; fingerprint = keep/interval/reorgs/same-block-spend blocks/effective prunes/final chain length");
+    out.finish("a case is non-trivial when it contains at least one reorg (rollback of >=1 block followed by other blocks), at least one block in which a cell is created and spent, and at least one query with a non-empty answer; fingerprint = keep/interval/reorgs/same-block-spend blocks/effective prunes/final chain length; scenario cases: retention-floor (F:keep/interval/depth of the rollback that ends exactly at the retention floor/effective prunes) is non-trivial when a prune deleted rows and the rollback to the floor is >= 1 block deep, prune-boundary (B:keep/interval/rollback depth/effective prunes) when an explicit or automatic prune at tip >= keep_num+2 deleted rows; real-node cases (R:keep/interval/proposal window/reorgs/deepest reorg/same-block-spend blocks/effective prunes) when the node reorganised at least once, a block with a chain of transactions was indexed and a query was non-empty");
 }
